@@ -155,6 +155,8 @@ class C09(HistoryProfile):
       w[k] = w.get(k, 1) * 4
     w["update_records"] = 4
     w["add_field"] = 6
+    w["add_filter"] = 6
+    w["link_sections"] = 4
     return w
 
   def check(self, sim, out, st):
@@ -1181,7 +1183,7 @@ class C36(HistoryProfile):
   def base_weights(self):
     return {"add_table": 10, "add_view": 14, "page_indent": 30, "remove_view_things": 18,
             "remove_table": 8, "add_records": 2, "update_records": 2, "add_view_section": 3,
-            "duplicate_table": 2, "page_remove_many": 12}
+            "duplicate_table": 2, "page_remove_many": 12, "page_move": 10}
 
   def config(self, rng, tier):
     cfg = super(C36, self).config(rng, tier)
@@ -1291,6 +1293,27 @@ def op_page_remove_many(g, dv, protected):
 
 
 gen.OPS["page_remove_many"] = op_page_remove_many
+
+
+def op_page_move(g, dv, protected):
+  """Drag a page elsewhere in the page list (its pagePos changes, and its indentation to
+  something that fits the new place): display order and row-id order part ways."""
+  pages = sorted(dv.records("_grist_Pages"), key=lambda p: p[1]["pagePos"])
+  if len(pages) < 3:
+    return None
+  i = g.rng.randrange(len(pages))
+  rid = pages[i][0]
+  rest = [p for p in pages if p[0] != rid]
+  j = g.rng.randint(0, len(rest))
+  before = rest[j - 1][1] if j > 0 else None
+  after = rest[j][1] if j < len(rest) else None
+  lo = before["pagePos"] if before else (after["pagePos"] - 2)
+  hi = after["pagePos"] if after else (before["pagePos"] + 2)
+  indent = 0 if before is None else g.rng.randint(0, (before["indentation"] or 0) + 1)
+  return [["UpdateRecord", "_grist_Pages", rid, {"pagePos": (lo + hi) / 2.0, "indentation": indent}]]
+
+
+gen.OPS["page_move"] = op_page_move
 
 
 # -- C41 ------------------------------------------------------------------------------------------
